@@ -597,6 +597,19 @@ impl<'a> Display for Meta<'a> {
     }
 }
 
+#[cfg(feature = "verif-hooks")]
+pub(crate) fn verif_meta_format(kind: &str, pid: pid_t, timestamp: f64, text: &str) -> String {
+    format!(
+        "{}",
+        Meta {
+            kind,
+            pid,
+            timestamp,
+            text
+        }
+    )
+}
+
 /// The error type returned from [`Meta::parse`].
 #[derive(Debug)]
 pub struct MetaParseError {
